@@ -3,6 +3,7 @@ package rules
 import (
 	"fmt"
 	"go/token"
+	"go/types"
 	"sort"
 	"strings"
 
@@ -154,6 +155,51 @@ func allocHolds(al *ssa.Alloc, pred func(ssa.Value) bool) bool {
 	return visit(al, 0)
 }
 
+// returnsSpan: the method returns a match position - (int, int, bool), *Match - rather than a boolean.
+func returnsSpan(fn *ssa.Function) bool {
+	rs := fn.Signature.Results()
+	switch rs.Len() {
+	case 1:
+		return strings.HasSuffix(rs.At(0).Type().String(), "meta.Match")
+	case 3:
+		return isIntType(rs.At(0).Type()) && isIntType(rs.At(1).Type())
+	}
+	return false
+}
+
+// ownsLeftmostFirstDFA: t is (a pointer to) a struct declared in package meta with a field of type *lazy.DFA:
+// a searcher that takes match positions from lazy automata of its own, which are built with break-at-match
+// (leftmost-first) priority and never see the Engine's mode.
+func ownsLeftmostFirstDFA(t types.Type) bool {
+	if pt, ok := t.Underlying().(*types.Pointer); ok {
+		t = pt.Elem()
+	}
+	nm, ok := t.(*types.Named)
+	if !ok || nm.Obj().Pkg() == nil || !strings.HasSuffix(nm.Obj().Pkg().Path(), "/meta") {
+		return false
+	}
+	st, ok := nm.Underlying().(*types.Struct)
+	if !ok {
+		return false
+	}
+	for i := 0; i < st.NumFields(); i++ {
+		if strings.HasSuffix(st.Field(i).Type().String(), "dfa/lazy.DFA") {
+			return true
+		}
+	}
+	return false
+}
+
+// engineFieldOwner: v loads a field of *meta.Engine.
+func engineFieldOwner(v ssa.Value) (*ssa.FieldAddr, bool) {
+	if u, ok := v.(*ssa.UnOp); ok && u.Op == token.MUL {
+		if fa, ok := u.X.(*ssa.FieldAddr); ok && strings.HasSuffix(fa.X.Type().String(), "meta.Engine") {
+			return fa, true
+		}
+	}
+	return nil, false
+}
+
 func isLongestLoad(v ssa.Value) bool {
 	u, ok := v.(*ssa.UnOp)
 	if !ok || u.Op != token.MUL {
@@ -231,8 +277,8 @@ func notLongestBlocks(fn *ssa.Function) func(b *ssa.BasicBlock) bool {
 func init() {
 	core.Register(&core.Rule{
 		Name: "R-LONGEST",
-		Doc: "Leftmost-first automata are consulted for a span only in leftmost-first mode: in package meta, every call of a span-returning method of the forward lazy DFA (SearchAt, Find, FindAt, SearchAtAnchored, SearchFirstAt on the Engine's dfa field) sits in code that is only reached when e.longest is false - either the call is dominated by such a test in the same function, or every call site of the function inside the package is (transitively). The same holds for the literal engines that report the first alternative matching at a position: FindMatch of a complete literal prefilter reached through e.prefilter (Teddy) and Find/FindAt of e.ahoCorasick. Boolean calls (IsMatch*) are exempt: whether a match exists does not depend on the mode. The forward DFA is built with break-at-match priority, so its match end is the leftmost-first one; a path that uses it without looking at the mode returns the same span in both modes and is wrong in one of them (distinguishability). Necessary for C10 (every API honours Longest) and C11.",
-		Min: 15, NeedSSA: true,
+		Doc: "Leftmost-first automata are consulted for a span only in leftmost-first mode: in package meta, every call of a span-returning method of the forward lazy DFA (SearchAt, Find, FindAt, SearchAtAnchored, SearchFirstAt on the Engine's dfa field) sits in code that is only reached when e.longest is false - either the call is dominated by such a test in the same function, or every call site of the function inside the package is (transitively). The same holds for the literal engines that report the first alternative matching at a position: FindMatch of a complete literal prefilter reached through e.prefilter (Teddy) and Find/FindAt of e.ahoCorasick. And for the specialised searchers the Engine holds that carry lazy automata of their own (a field of a *...Searcher type of package meta with a *lazy.DFA inside: reverse anchored, suffix, suffix-set, inner, multiline): every call of a method of theirs that returns a position (*Match or (int, int, bool)) is only reached when e.longest is false - they never see the mode (pinned tree: \\w+ error(s|s found)? gave [0 10] on 'two errors found here' after Longest(), regexp [0 16]) => fixed. Boolean calls (IsMatch*) are exempt: whether a match exists does not depend on the mode. The forward DFA is built with break-at-match priority, so its match end is the leftmost-first one; a path that uses it without looking at the mode returns the same span in both modes and is wrong in one of them (distinguishability). Necessary for C10 (every API honours Longest) and C11.",
+		Min: 40, NeedSSA: true,
 		Run: func(p *core.Prog) *core.RuleResult {
 			res := &core.RuleResult{}
 			cg := p.CallGraph()
@@ -298,10 +344,16 @@ func init() {
 							if f := innerField(c.Call.Args[0]); f != nil && f.Name() == "dfa" {
 								calName = cal.Name()
 							}
-						case cal != nil && cal.Signature.Recv() != nil && (cal.Name() == "Find" || cal.Name() == "FindAt") && len(c.Call.Args) > 0:
+						case cal != nil && cal.Signature.Recv() != nil && (cal.Name() == "Find" || cal.Name() == "FindAt") && len(c.Call.Args) > 0 && innerField(c.Call.Args[0]) != nil && innerField(c.Call.Args[0]).Name() == "ahoCorasick":
 							// the Aho-Corasick literal engine (first alternative wins)
-							if f := innerField(c.Call.Args[0]); f != nil && f.Name() == "ahoCorasick" {
-								calName = "ahoCorasick." + cal.Name()
+							calName = "ahoCorasick." + cal.Name()
+						case cal != nil && cal.Signature.Recv() != nil && len(c.Call.Args) > 0 && returnsSpan(cal) && ownsLeftmostFirstDFA(cal.Signature.Recv().Type()):
+							// a specialised searcher held by the Engine that carries automata of its own
+							// (reverse anchored / suffix / suffix-set / inner / multiline searchers)
+							if f := innerField(c.Call.Args[0]); f != nil && strings.HasSuffix(f.Type().String(), "Searcher") {
+								if _, onEngine := engineFieldOwner(c.Call.Args[0]); onEngine {
+									calName = f.Name() + "." + cal.Name()
+								}
 							}
 						case c.Call.IsInvoke() && c.Call.Method.Name() == "FindMatch":
 							// a literal prefilter that returns whole matches of varying length (Teddy), reached through e.prefilter
